@@ -42,7 +42,10 @@ def write_cfg(path, constants, init="Init", next_="Next", spec=None, view=None,
     if constants:
         L.append("CONSTANTS")
         for k, v in constants.items():
-            L.append("  %s = %s" % (k, tla_value(v)))
+            if isinstance(v, str) and v.startswith("<-"):
+                L.append("  %s <- %s" % (k, v[2:].strip()))     # definition override
+            else:
+                L.append("  %s = %s" % (k, tla_value(v)))
     if spec:
         L.append("SPECIFICATION " + spec)
     else:
